@@ -15,3 +15,19 @@ Theorem C02_modes_panic_together :
   emit_inline ftext b sc = Panic <-> emit_params ftext b sc = Panic.
 Proof. exact modes_panic_together. Qed.
 Print Assumptions C02_modes_panic_together.
+
+(* The two TEXTS as the engine reads them.  For EVERY script that satisfies the decidable separability premises
+   (Spec/EngScript.v) in both modes: piece by piece, the engine's token stream of the inline SQL is the token
+   stream of the parameterised SQL in which every placeholder token TkParam is replaced by the engine tokens of the
+   literal of the value bound to it (pr_hole), and every other piece contributes the same tokens to both
+   (pr_text: same tokens, no placeholder among them).  So the two forms cannot differ in structure, clause order
+   or parenthesisation as the engine sees them. *)
+Require Import SQV.Spec.EngLex SQV.Spec.EngTok SQV.Spec.EngBoundary SQV.Spec.EngScript SQV.Proofs.EngScriptProofs.
+Theorem C02_engine_reads_inline_as_params_substituted :
+  forall (ftext : bool -> N -> str) b sc inl sql vals,
+  emit_inline ftext b sc = Ok inl -> emit_params ftext b sc = Ok (sql, vals) ->
+  params_sep ftext b sc = true -> inline_sep ftext b sc = true ->
+  exists tsp tsi, eng_tokens b sql = Some (concat tsp) /\ eng_tokens b inl = Some (concat tsi) /\
+                  pieces_rel ftext b vals (pieces ftext b sc) tsp tsi.
+Proof. exact engine_reads_inline_as_params_substituted. Qed.
+Print Assumptions C02_engine_reads_inline_as_params_substituted.
